@@ -799,6 +799,21 @@ func (ts *TermStore) SLen(a *Term) *Term {
 	if a.op == OSym && ts.big[a.s] {
 		return ts.App("len!", IntSort, a)
 	}
+	if a.op == OApp {
+		// results of modelled library functions with a known length
+		switch a.s {
+		case "ed25519.sign":
+			return ts.Int(64)
+		case "uuidstr":
+			return ts.Int(36)
+		case "hex":
+			l := ts.SLen(a.args[0])
+			return ts.IAdd(l, l)
+		}
+		if a.sort.K == SStr {
+			return ts.App("len!", IntSort, a)
+		}
+	}
 	return ts.mk(OSLen, IntSort, 0, 0, "", a)
 }
 func (ts *TermStore) SConcat(xs ...*Term) *Term {
